@@ -122,7 +122,25 @@ def expr_bound(e, state, sizes):
         return min(bs) if bs else INF
     if k == 'DeclRefExpr' and (s.get('_ref') or ('',))[0] in ('local', 'param'):
         return state.get(s['_ref'][2], INF)
+    if k == 'CallExpr' and _PROG.get('prog') is not None:
+        # a pure helper whose body is a single `return <expr over its parameters>` (e.g. an inline min()): the bound of the
+        # return expression with the parameters bound to the bounds of the arguments
+        f0 = strip(children(s)[0])
+        nm = (f0.get('referencedDecl') or {}).get('name') if f0.get('kind') == 'DeclRefExpr' else None
+        g = _PROG['prog'].resolve_name(_PROG.get('unit'), nm) if nm else None
+        if g is not None and getattr(g, 'body', None) is not None:
+            stmts = [c for c in children(g.body)]
+            if len(stmts) == 1 and stmts[0].get('kind') == 'ReturnStmt' and children(stmts[0]):
+                st2 = {}
+                for p_, a in zip(g.params, children(s)[1:]):
+                    b = expr_bound(a, state, sizes)
+                    if b is not None:
+                        st2[p_.get('name')] = b
+                return expr_bound(children(stmts[0])[0], st2, sizes)
     return INF
+
+
+_PROG = {}
 
 
 class BoundFlow:
@@ -209,6 +227,7 @@ class BoundFlow:
 
 def rule_c07(prog, rep):
     u = prog.unit(UNIT)
+    _PROG.update(prog=prog, unit=u)
     rep.rule('I1', 'image records (header, slot and everything nested by value) contain no pointer / function pointer / pointer-sized integer member')
     rep.rule('I2', 'no pointer value is converted to an integer in qhasharr.c and image fields are accessed in qhasharr.c only')
     rep.rule('I3', 'attach mode (memsize == 0) writes nothing to the region: every store/memset to it in the constructor is under memsize > 0')
@@ -640,6 +659,48 @@ def _i9_check(prog, rep, ctor, n, writes, sname, rid='I9'):
         v = K + 1 if op == '>' else (K if op in ('>=', '==') else None)
         if v is not None and (lb is None or v > lb):
             lb = v
+    # the validation may live in a helper:  v = g(memsize); if (v == 0) refuse;  - what does a non-zero result of g say
+    # about its argument?  (must-facts about the parameter at every return of g that is not a literal 0)
+    from .expr import var_init
+    for y in walk(ctor.body):
+        call = None
+        vname = None
+        if y.get('kind') == 'VarDecl' and var_init(y) is not None and strip(var_init(y)).get('kind') == 'CallExpr':
+            call, vname = strip(var_init(y)), y.get('name')
+        elif y.get('kind') == 'BinaryOperator' and y.get('opcode') == '=' and strip(children(y)[1]).get('kind') == 'CallExpr' \
+                and strip(children(y)[0]).get('kind') == 'DeclRefExpr':
+            call, vname = strip(children(y)[1]), canon(children(y)[0])
+        if call is None or len(children(call)) != 2 or canon(children(call)[1]) != sname:
+            continue
+        nonzero = any(a == vname and ((op == '!=' and b == '0') or (op == '>' and b == '0') or (op == '>=' and b == '1'))
+                      for (a, op, b, dom) in facts9)
+        if not nonzero:
+            continue
+        for g in prog.callees(ctor.unit, call):
+            if getattr(g, 'body', None) is None or not g.params:
+                continue
+            pn = g.params[0].get('name')
+            gf = Facts(g)
+            glb = None
+            for r in g.cfg.returns():
+                if not children(r.ast) or int_value(children(r.ast)[0]) == 0:
+                    continue
+                best = None
+                for (a, op, b, dom) in gf.at(r):
+                    if a != pn:
+                        continue
+                    K = int(b) if re.match(r'^\d+$', b) else (clang_sizeof(prog, [b]).get(b) if b.startswith('sizeof(') else None)
+                    if K is None:
+                        continue
+                    v = K + 1 if op == '>' else (K if op in ('>=', '==') else None)
+                    if v is not None and (best is None or v > best):
+                        best = v
+                glb = best if glb is None else (min(glb, best) if best is not None else None)
+                if best is None:
+                    glb = None
+                    break
+            if glb is not None and (lb is None or glb > lb):
+                lb = glb
     rep.rule(rid, 'the constructor writes the image header only when memsize >= sizeof(header) is known (the slot count comes '
                   'from the unsigned difference memsize - sizeof(header), which wraps for smaller regions)')
     rep.instance(rid)
